@@ -25,40 +25,48 @@ type FSpec struct {
 }
 
 type ChainCfg struct {
-	Entry      string  `json:"entry"` // ServeHTTP | Dispatch | Mux | Nested | NestedFilter
-	Router     string  `json:"router"`
-	ContEnc    bool    `json:"container_encoding"`
-	ContEncReg bool    `json:"container_encoding_while_registering"` // the switch is flipped to container_encoding before serving
-	RouteEnc   int     `json:"route_encoding"`                       // 0 unset, 1 true, 2 false
-	Provider   string  `json:"provider"`
-	WCap       int     `json:"wcap,omitempty"`
-	RCap       int     `json:"rcap,omitempty"`
-	Recover    int     `json:"recover"` // 0 off, 1 default handler, 2 custom handler
-	CustomErr  bool    `json:"custom_service_error_handler"`
-	Flusher    bool    `json:"writer_is_flusher"`
-	Trace      bool    `json:"trace"`
-	LateConfig bool    `json:"container_configured_after_registration"`
-	Pretty     bool    `json:"pretty"`
-	CF         []FSpec `json:"container_filters"`
-	SF         []FSpec `json:"service_filters"`
-	RF         []FSpec `json:"route_filters"`
-	SF2        []FSpec `json:"service2_filters,omitempty"`
-	RF2        []FSpec `json:"route2_filters,omitempty"`
-	Preempt    int     `json:"preempt_permille"`
+	Entry      string `json:"entry"` // ServeHTTP | Dispatch | Mux | Nested | NestedFilter
+	Router     string `json:"router"`
+	ContEnc    bool   `json:"container_encoding"`
+	ContEncReg bool   `json:"container_encoding_while_registering"` // the switch is flipped to container_encoding before serving
+	RouteEnc   int    `json:"route_encoding"`                       // 0 unset, 1 true, 2 false
+	Provider   string `json:"provider"`
+	WCap       int    `json:"wcap,omitempty"`
+	RCap       int    `json:"rcap,omitempty"`
+	Recover    int    `json:"recover"` // 0 off, 1 default handler, 2 custom handler
+	CustomErr  bool   `json:"custom_service_error_handler"`
+	Flusher    bool   `json:"writer_is_flusher"`
+	Trace      bool   `json:"trace"`
+	LateConfig bool   `json:"container_configured_after_registration"`
+	// Warm: a request is served to each service when only the first WarmCF container filters and
+	// WarmSF / WarmSF2 service filters are registered; the rest is registered afterwards, before the
+	// simulated clients start. Nothing computed for the first request may outlive it.
+	Warm    bool    `json:"warm_up_before_all_filters_are_registered"`
+	WarmCF  int     `json:"warm_container_filters,omitempty"`
+	WarmSF  int     `json:"warm_service_filters,omitempty"`
+	WarmSF2 int     `json:"warm_service2_filters,omitempty"`
+	Pretty  bool    `json:"pretty"`
+	CF      []FSpec `json:"container_filters"`
+	SF      []FSpec `json:"service_filters"`
+	RF      []FSpec `json:"route_filters"`
+	SF2     []FSpec `json:"service2_filters,omitempty"`
+	RF2     []FSpec `json:"route2_filters,omitempty"`
+	Preempt int     `json:"preempt_permille"`
 }
 
 type ChainReq struct {
-	ID      int    `json:"id"`
-	Target  string `json:"target"` // route | post | notfound | badmethod | notacceptable | unsupported | plain | plainf | muxnotfound
-	AE      string `json:"accept_encoding,omitempty"`
-	PreCE   string `json:"writer_content_encoding,omitempty"`
-	N       int    `json:"payload"`
-	Chunks  []int  `json:"chunks,omitempty"`
-	PanicAt string `json:"panic_at,omitempty"`
-	Flush   bool   `json:"flush,omitempty"`
-	Early   bool   `json:"early_close,omitempty"`
-	AddSvc  bool   `json:"add_service_afterwards,omitempty"`
-	WFail   int    `json:"client_gone_at_write,omitempty"` // k>0: the client's writer fails from underlying write #k-1 on
+	ID       int    `json:"id"`
+	Target   string `json:"target"` // route | post | notfound | badmethod | notacceptable | unsupported | plain | plainf | muxnotfound
+	AE       string `json:"accept_encoding,omitempty"`
+	PreCE    string `json:"writer_content_encoding,omitempty"`
+	N        int    `json:"payload"`
+	Chunks   []int  `json:"chunks,omitempty"`
+	PanicAt  string `json:"panic_at,omitempty"`
+	Flush    bool   `json:"flush,omitempty"`
+	Early    bool   `json:"early_close,omitempty"`
+	AddSvc   bool   `json:"add_service_afterwards,omitempty"`
+	WFail    int    `json:"client_gone_at_write,omitempty"` // k>0: the client's writer fails from underlying write #k-1 on
+	BodyGzip bool   `json:"gzip_request_body,omitempty"`    // post target: the entity is sent gzip-coded and read with ReadEntity
 
 	payload []byte
 	res     [2]*ChainRes // 0: simulated run, 1: sequential twin
@@ -109,6 +117,7 @@ type chainEnv struct {
 	cfg   *ChainCfg
 	byID  map[int]*ChainReq
 	extra int
+	late  func() // registers the filters held back for the warm-up (live container only)
 }
 
 func (e *chainEnv) res() (*ChainReq, *ChainRes) {
@@ -294,6 +303,13 @@ func (e *chainEnv) routeFunc(req *restful.Request, resp *restful.Response) {
 	}
 	res.SawParams = kv(req.PathParameters())
 	res.SawSel = req.SelectedRoutePath()
+	if r.Target == "post" && req.Attribute("gen") == nil && req.Request.Method == "POST" {
+		// read the entity (through a pooled decompressor when it is gzip-coded): its token is the request's own
+		var ent struct{ Tok string }
+		if err := req.ReadEntity(&ent); err != nil || ent.Tok != fmt.Sprintf("tok%d", r.ID) {
+			e.ev(fmt.Sprintf("entity-misread:%v:%q", err, ent.Tok))
+		}
+	}
 	e.crash("handler:before")
 	e.writeChunks(resp, r, resp.Flush)
 	if r.Early {
@@ -387,7 +403,11 @@ func (e *chainEnv) build(encOff bool) (c *restful.Container, outer *restful.Cont
 				e.appWrite(resp, []byte(fmt.Sprintf("custom-error:%d", se.Code)))
 			})
 		}
-		for _, f := range cfg.CF {
+		ncf := len(cfg.CF)
+		if cfg.Warm && !encOff {
+			ncf = cfg.WarmCF
+		}
+		for _, f := range cfg.CF[:ncf] {
 			c.Filter(e.filter(f))
 		}
 	}
@@ -397,7 +417,11 @@ func (e *chainEnv) build(encOff bool) (c *restful.Container, outer *restful.Cont
 		configure()
 	}
 	ws := new(restful.WebService).Path("/svc").Produces("application/json")
-	for _, f := range cfg.SF {
+	nsf, nsf2 := len(cfg.SF), len(cfg.SF2)
+	if cfg.Warm && !encOff {
+		nsf, nsf2 = cfg.WarmSF, cfg.WarmSF2
+	}
+	for _, f := range cfg.SF[:nsf] {
 		ws.Filter(e.filter(f))
 	}
 	rfs := cfg.RF
@@ -423,8 +447,21 @@ func (e *chainEnv) build(encOff bool) (c *restful.Container, outer *restful.Cont
 	c.Add(ws)
 	// a second service with its own filters: chains of different requests must not mix
 	ws2 := new(restful.WebService).Path("/svc2").Produces("application/json")
-	for _, f := range cfg.SF2 {
+	for _, f := range cfg.SF2[:nsf2] {
 		ws2.Filter(e.filter(f))
+	}
+	if cfg.Warm && !encOff {
+		e.late = func() {
+			for _, f := range cfg.CF[cfg.WarmCF:] {
+				c.Filter(e.filter(f))
+			}
+			for _, f := range cfg.SF[cfg.WarmSF:] {
+				ws.Filter(e.filter(f))
+			}
+			for _, f := range cfg.SF2[cfg.WarmSF2:] {
+				ws2.Filter(e.filter(f))
+			}
+		}
 	}
 	rfs = cfg.RF2
 	ws2.Route(mk(ws2.GET("/data/{id}")))
@@ -460,7 +497,12 @@ func (r *ChainReq) httpReq(t *sim.Task) *http.Request {
 		return NewReq("GET", fmt.Sprintf("/svc2/data/tok%d", r.ID), hdr, nil, 0, r.ID)
 	case "post":
 		hdr["Content-Type"] = "application/json"
-		return NewReq("POST", "/svc/post", hdr, &sim.SimBody{T: t, Data: []byte("{}")}, 2, r.ID)
+		data := []byte(fmt.Sprintf(`{"Tok":"tok%d"}`, r.ID))
+		if r.BodyGzip {
+			data = Gzip(data)
+			hdr["Content-Encoding"] = "gzip"
+		}
+		return NewReq("POST", "/svc/post", hdr, &sim.SimBody{T: t, Data: data, Chunks: []int{7, 64}}, int64(len(data)), r.ID)
 	case "notfound":
 		return NewReq("GET", "/svc/none/at/all", hdr, nil, 0, r.ID)
 	case "muxnotfound":
@@ -608,7 +650,8 @@ type chainKnobs struct {
 	maxPayload   int
 	filterWrites bool
 	early        bool
-	wfaults      int // permille of requests whose client goes away (writer starts failing)
+	warm         bool // allow a warm-up phase before all filters are registered
+	wfaults      int  // permille of requests whose client goes away (writer starts failing)
 }
 
 func genFilters(tp *sim.Tape, k chainKnobs, max int) []FSpec {
@@ -684,6 +727,12 @@ func genChainCfg(tp *sim.Tape, k chainKnobs) *ChainCfg {
 	tagFilters(cfg.RF, "r")
 	tagFilters(cfg.SF2, "t")
 	tagFilters(cfg.RF2, "q")
+	if k.warm && tp.Chance(300) && !strings.HasPrefix(cfg.Entry, "Nested") {
+		cfg.Warm = true
+		cfg.WarmCF = tp.G(len(cfg.CF) + 1)
+		cfg.WarmSF = tp.G(len(cfg.SF) + 1)
+		cfg.WarmSF2 = tp.G(len(cfg.SF2) + 1)
+	}
 	return cfg
 }
 
@@ -726,6 +775,9 @@ func genChainReq(tp *sim.Tape, cfg *ChainCfg, k chainKnobs, id int) *ChainReq {
 	}
 	if tp.Chance(k.wfaults) {
 		r.WFail = 1 + tp.G(4)
+	}
+	if r.Target == "post" && k.encoding {
+		r.BodyGzip = tp.Bool()
 	}
 	if r.Early {
 		// a handler that closes the response writer itself is only meaningful if nothing is written afterwards
@@ -777,6 +829,25 @@ func newChainRun(s *sim.Sim, cfg *ChainCfg, reqs []*ChainReq) *chainRun {
 	restful.PrettyPrintResponses = cfg.Pretty
 	cr := &chainRun{env: env}
 	cr.c, cr.outer = env.build(false)
+	if cfg.Warm && env.late != nil {
+		// history: one request per service while only part of the filters exists, then the rest is registered
+		early := *cfg
+		early.CF, early.SF, early.SF2 = cfg.CF[:cfg.WarmCF], cfg.SF[:cfg.WarmSF], cfg.SF2[:cfg.WarmSF2]
+		for i, target := range []string{"route", "route2"} {
+			wr := &ChainReq{ID: 9001 + i, Target: target, N: 20, Chunks: []int{20}}
+			wr.payload = sim.PayloadBytes(fmt.Sprintf("warm%d", i), wr.N)
+			wr.res[0] = &ChainRes{WrapIn: map[string]int{}, WrapWant: map[string]int{}}
+			env.byID[wr.ID] = wr
+			seqReq, seqVariant = wr.ID, 0
+			cr.serve(nil, wr, 0)
+			seqReq = 0
+			if want, _ := early.model(wr); !eventsEqual(wr.res[0].Events, want) {
+				s.Violate("filter-order", "warm-up request to %s with %d container and %d/%d service filters registered: events %v, the filter-order model gives %v", target, cfg.WarmCF, cfg.WarmSF, cfg.WarmSF2, wr.res[0].Events, want)
+			}
+		}
+		env.late()
+		s.Counts["reach:filters-registered-after-first-request"] = 1
+	}
 	cr.twinC, cr.twinO = env.build(true)
 	return cr
 }
